@@ -42,7 +42,7 @@ def run(tier="quick", replay=None, merge=True):
             ok, what, paths = c01conc.build()
     except RuntimeError as e:
         print("INTERNAL: " + str(e)); return 2
-    cov = {"scenarios": [], "tie_broken": [], "level_of_this_part": "exploration (no Coq model of these races)"}
+    cov = {"scenarios": [], "tie_broken": [], "level_of_this_part": "theorems for every schedule over the interleaving model coq/ConcStore.v + regenerated facts about the critical sections (GenStore.v) + exploration of the real handlers"}
     viol = []
     if not ok:
         if what.startswith("INTERNAL"):
@@ -112,13 +112,20 @@ def run(tier="quick", replay=None, merge=True):
                     viol.insert(0, {"kind": "property", "replay": rp, "what": "; ".join(r.get("failed", []))})
             cov["real_thread_stress"] = {"runs": len(runs), "failing_runs": sum(1 for r in runs if not r.get("ok")),
                                          "allocations_per_run": runs[0]["workers"] * runs[0]["per_worker"] * 3 // 2 if runs else 0}
+    info, tie = ({"ok": True, "theorems": [], "examples": []}, None) if replay else C.store_clause_info("C10store")
+    if tie:
+        cov["tie_broken"].append(tie)
+        if not viol:
+            rp = C.write_replay(PID, "replay-c10store-unchecked.json", {"property": PID, "unchecked": tie,
+                                "searched": "every schedule of the race scenarios within the preemption bound on the instrumented real handlers: no failing schedule"})
+            viol.append({"kind": "tie", "replay": rp, "what": tie})
     rc = 0
     for v in viol:
         C.violation(PID, v["replay"], no_input=(v["kind"] != "property")); rc = 1
         break
-    info = {"ok": True, "theorems": [], "examples": []}
-    assumptions = ["concurrent clause: decided by bounded exploration (preemption bound 2; 3 in the thorough tier for two racers) of one allocation per racing connection"]
-    tb = ["tools/instrument + verifsched + harness/l3v (see C01's concurrent clause); the verdict of this part reads the ids in the racers' answers directly (checks/c10conc.py), no extracted model is involved"]
+    assumptions = ["concurrent clause: type ids for the model under every schedule (Properties/ConcStore.v: C10_conc_addtype, C10_conc_addtype_never_reissued, fewer than 2^32 allocations); on the real handlers "
+                   "bounded exploration (preemption bound 2; 3 in the thorough tier for two racers) of one allocation per racing connection, and a real-thread stress"]
+    tb = ["tools/instrument + verifsched + harness/l3v (see C01's concurrent clause); the verdict on real executions reads the ids in the racers' answers directly (checks/c10conc.py), no extracted model is involved; tools/storefacts (Go AST -> coq/GenStore.v: AddType is one exclusive critical section containing lookup and allocation), fails closed"]
     if merge:
         err = C.merge_evidence(PID, "concurrent_allocations", cov, info, assumptions, tb, rc, time.time() - t0, "", [dict(v) for v in viol])
         if err:
